@@ -386,7 +386,7 @@ def run(ctx: Ctx, tier: str) -> Result:
             sl = r.result.elts[0]
             if norm(sl.value) == fnp and isinstance(sl.slice, ast.Slice) and sl.slice.upper is None and sl.slice.lower is not None \
                     and isinstance(sl.slice.lower, ast.Call) and norm(sl.slice.lower.func) == "len" \
-                    and "is_app_frame(%s)[1]" % fnp in norm(sl.slice.lower):
+                    and len(sl.slice.lower.args) == 1 and norm(sl.slice.lower.args[0]).endswith("is_app_frame(%s)[1]" % fnp):
                 good_rows += 1
     # on every path that cuts the name, exactly the matched prefix is cut
     good = cut_rows > 0 and good_rows == cut_rows
